@@ -171,7 +171,7 @@ impl Prop for C03 {
     type Case = UpdCase;
     fn id(&self) -> &'static str { "C03" }
     fn expected_counters(&self) -> Vec<&'static str> { vec!["fault.direct_api_mutation_makes_statistics_stale", "probe.statistics_cached_before_later_updates", "fault.rejected_operation", "probe.same_quad_deleted_and_inserted", "probe.fresh_blank_nodes_created"] }
-    fn budget(&self, tier: Tier) -> Budget { match tier { Tier::Quick => Budget { runs: 10_000, wall_s: 60, recheck: 30 }, Tier::Thorough => Budget { runs: 800_000, wall_s: 1200, recheck: 100 } } }
+    fn budget(&self, tier: Tier) -> Budget { match tier { Tier::Quick => Budget { runs: 10_000, wall_s: 60, recheck: 30 }, Tier::Thorough => Budget { runs: 800_000, wall_s: 1000, recheck: 100 } } }
     fn hash_seed(&self, c: &UpdCase) -> u64 { c.hash_seed }
     fn gen(&self, seed: u64, _i: u64, _t: Tier) -> UpdCase {
         let mut r = Rng::sub(seed, "workload"); let mut cfg = Rng::sub(seed, "swarm");
@@ -275,7 +275,7 @@ impl Prop for C17 {
     type Case = HostileCase;
     fn id(&self) -> &'static str { "C17" }
     fn expected_counters(&self) -> Vec<&'static str> { vec!["fault.update_submitted_to_query_endpoint", "fault.malformed_or_refused_request", "fault.multibyte_request"] }
-    fn budget(&self, tier: Tier) -> Budget { match tier { Tier::Quick => Budget { runs: 20_000, wall_s: 60, recheck: 30 }, Tier::Thorough => Budget { runs: 1_500_000, wall_s: 1500, recheck: 100 } } }
+    fn budget(&self, tier: Tier) -> Budget { match tier { Tier::Quick => Budget { runs: 20_000, wall_s: 60, recheck: 30 }, Tier::Thorough => Budget { runs: 1_500_000, wall_s: 1000, recheck: 100 } } }
     fn hash_seed(&self, c: &HostileCase) -> u64 { c.hash_seed }
     fn gen(&self, seed: u64, _i: u64, _t: Tier) -> HostileCase {
         let mut r = Rng::sub(seed, "workload"); let mut cfg = Rng::sub(seed, "swarm");
